@@ -80,8 +80,11 @@ func c03Gen(rt *rapid.T) rigScenario {
 			sc.Ops = append(sc.Ops, rigOp{K: "write", Side: side, S: s, N: n})
 		case k < 60:
 			sc.Ops = append(sc.Ops, genDeliver(rt, sc.Cfg.NumConn))
-		case k < 75:
+		case k < 70:
 			sc.Ops = append(sc.Ops, rigOp{K: "read", Side: side, S: s, N: rapid.SampledFrom([]int{1, 64, 5000, 70000}).Draw(rt, "buf")})
+		case k < 75:
+			// from now on this end is drained the way the relays do it: io.Copy (Stream.WriteTo if there is one)
+			sc.Ops = append(sc.Ops, rigOp{K: "readall", Side: side, S: s})
 		case k < 88:
 			cl := plans[s].closer
 			if cl == 2 || cl == side {
